@@ -721,6 +721,9 @@ def fontChecks (f : Font) (r : FontReport) : FontReport := Id.run do
     r := r.note "fvar.axisCount" [fv.axisCount] |>.note "fvar.nameIds" fv.nameIds
     for id in dedupSorted (sortNat fv.nameIds) do
       if !nameIds.contains id then r := r.fail s!"name-id-missing:fvar:{id}"
+    -- the OpenType spec requires STAT in every variable font and gvar in every TrueType-flavoured one
+    for t in ["STAT", "gvar"] do
+      if !f.has t then r := r.fail s!"missing:{t}"
   let (r1, stat?) := parseOpt f "STAT" parseStatNameIds r; r := r1
   if let some ids := stat? then
     r := r.note "STAT.nameIds" ids
